@@ -498,10 +498,7 @@ Proof.
   destruct (d_lookup kvs (VStr field)) as [tag|] eqn:El; [|left; reflexivity].
   rewrite (Hh tag eq_refl). cbn [negb].
   destruct (reg_lookup reg tag) as [dec|] eqn:Er; [|right; left; reflexivity].
-  destruct (dec (VDict kvs)) as [x|e] eqn:Ed.
-  - right; right. exists tag, dec. rewrite Ed. auto.
-  - destruct e; first [ solve [right; right; exists tag, dec; rewrite Ed; auto]
-                      | right; left; reflexivity ].
+  right; right. exists tag, dec. auto.
 Qed.
 
 Theorem discr_nofield_outcomes : forall variants v,
@@ -568,23 +565,12 @@ Proof.
   destruct (py_getitem_str v field) as [tag|e].
   2:{ destruct e; cbn [fst snd]; auto. }
   destruct (hashable tag); cbn [negb]; [|cbn [fst snd]; auto].
-  assert (Hmiss: forall r, tag_lookup r tag = None -> reg_call r tag v = Exn XKeyError)
-    by (intros r Hr; unfold reg_call; rewrite Hr; reflexivity).
-  destruct tag; try (rewrite !Hmiss by reflexivity; cbn [fst snd]; split; [reflexivity|apply refill_inv; assumption]).
+  destruct tag; cbn [tag_lookup]; try (cbn [fst snd]; split; [reflexivity|apply refill_inv; assumption]).
   (* tag = VStr s *)
-  assert (Hrc: reg_call reg (VStr s) v = match sreg_lookup reg s with None => Exn XKeyError | Some dec => dec v end) by reflexivity.
-  rewrite Hrc. clear Hrc.
-  assert (Hre: reg_call (refill reg vs) (VStr s) v = match owner vs s with None => Exn XKeyError | Some dec => dec v end).
-  { unfold reg_call. cbn [tag_lookup]. rewrite refill_inv_lookup by assumption. reflexivity. }
   destruct (sreg_lookup reg s) as [dec|] eqn:El.
-  - pose proof (Hinv _ _ El) as Ho. rewrite Ho in Hre. rewrite Ho.
-    destruct (dec v) as [x|e] eqn:Ed.
-    + cbn [fst snd]. split; [reflexivity|assumption].
-    + destruct e; cbn [fst snd];
-        first [ solve [split; [reflexivity|assumption]]
-              | rewrite Hre; cbn [fst snd]; split; [reflexivity|apply refill_inv; assumption] ].
-  - rewrite Hre. cbn [fst snd]. split; [|apply refill_inv; assumption].
-    destruct (owner vs s) as [dec|]; reflexivity.
+  - rewrite (Hinv _ _ El). cbn [fst snd]. split; [reflexivity|assumption].
+  - cbn [fst snd]. rewrite refill_inv_lookup by assumption. split; [|apply refill_inv; assumption].
+    destruct (owner vs s); reflexivity.
 Qed.
 
 (* whole histories, starting from the empty registry *)
@@ -600,11 +586,9 @@ Qed.
 Theorem discr_variant_outcome_propagates : forall field vs reg kvs s dec,
   reg_inv vs reg ->
   d_lookup kvs (VStr field) = Some (VStr s) -> owner vs s = Some dec ->
-  dec (VDict kvs) <> Exn XKeyError ->
   fst (discr_call field vs reg (VDict kvs)) = dec (VDict kvs).
 Proof.
-  intros field vs reg kvs s dec Hinv Hl Ho Hk.
+  intros field vs reg kvs s dec Hinv Hl Ho.
   rewrite (proj1 (discr_call_spec field vs reg (VDict kvs) Hinv)).
-  unfold discr_spec. cbn [py_getitem_str]. rewrite Hl. cbn [hashable negb]. rewrite Ho.
-  destruct (dec (VDict kvs)) as [x|e]; [reflexivity|]. destruct e; try reflexivity. congruence.
+  unfold discr_spec. cbn [py_getitem_str]. rewrite Hl. cbn [hashable negb]. rewrite Ho. reflexivity.
 Qed.
